@@ -291,6 +291,11 @@ class Builder:
 
     def build_gate(self, sexpression, context, gate_context):
         gate_name, *gate_args = sexpression.args
+        if self.is_in_block_context(
+            context, ["subcircuit", "parallel"]
+        ) and contains_subcircuit(gate_context.get(gate_name)):
+            # Expanding the macro would put its subcircuit block here
+            raise JaqalError("Nesting subcircuit in subcircuit or parallel block")
         gate, memo_key = self.gate_memo.get(gate_name, gate_args, context)
         if gate is None:
             gate_def = self.get_gate_definition(gate_name, len(gate_args), gate_context)
@@ -399,6 +404,20 @@ class Builder:
             # them not comparing equal in tests.
             name = str(name)
         return UsePulsesStatement(name, all, import_path=self.import_path)
+
+
+def contains_subcircuit(obj):
+    """Return whether a macro, statement or block contains a subcircuit
+    block, looking through calls to other macros."""
+    if isinstance(obj, Macro):
+        return contains_subcircuit(obj.body)
+    if isinstance(obj, BlockStatement):
+        return obj.subcircuit or any(contains_subcircuit(s) for s in obj.statements)
+    if isinstance(obj, LoopStatement):
+        return contains_subcircuit(obj.statements)
+    if isinstance(obj, GateStatement):
+        return contains_subcircuit(obj.gate_def)
+    return False
 
 
 def rebuild_macro_in_context(macro, context, gate_context):
